@@ -160,7 +160,7 @@ func genC20Op(t *rapid.T) c20Op {
 
 func TestC20(t *testing.T) {
 	runWitnesses(t, "C20")
-	rapidCheck(t, "C20/multisets", tier(48, 4000), func(rt *rapid.T) {
+	rapidCheck(t, "C20/multisets", tier(96, 4000), func(rt *rapid.T) {
 		n := rapid.IntRange(4, 64).Draw(rt, "nops")
 		c := c20Case{Goroutines: rapid.IntRange(2, 32).Draw(rt, "goroutines"), Rounds: rapid.IntRange(1, 2).Draw(rt, "rounds")}
 		// a few distinct operations repeated: same tables hit from several goroutines at once
